@@ -113,7 +113,9 @@ func TestVfRacePair(t *testing.T) {
 		case 2:
 			return vfV4Op(1, DefaultNetworkInstanceName, "9.9.9.9/32", 5, id)
 		case 3:
-			return vfV4Op(1, DefaultNetworkInstanceName, "9.9.9.9/32", 1, id) // moves the reference
+			o := vfV4Op(1, DefaultNetworkInstanceName, "9.9.9.9/32", 1, id) // moves the reference, as an explicit REPLACE
+			o.Op = spb.AFTOperation_REPLACE
+			return o
 		case 4:
 			return del(vfV4Op(1, DefaultNetworkInstanceName, "9.9.9.9/32", 1, id))
 		case 5:
